@@ -244,8 +244,9 @@ func runCfg(n *node, f *frame, funcNode, callNode *node) {
 		for _, val := range f.deferred {
 			callDeferred(f, val)
 		}
-		if f.recovered != nil && f.runid() != n.interp.runid() {
-			// The evaluation was cancelled while the panic was in flight: the
+		if f.recovered != nil && (f.runid() != n.interp.runid() || dbg != nil && dbg.terminated(f)) {
+			// The evaluation was cancelled (or the debugger is terminating the
+			// program) while the panic was in flight: the
 			// deferred functions which would have recovered it do not run any
 			// more, and the caller has been given the context's error. The
 			// goroutine just stops, like the rest of the cancelled evaluation,
